@@ -450,7 +450,9 @@ static RunResult exec_merge(const Plan &p)
 				Bytes t = cl.resolve(o.arg(0), &tmp);
 				if (in_run) seek_in_run = true;
 				in_run = false; got.clear(); ended = false;	// an interrupted run is not judged
-				if (mtbl_iter_seek(it, (const uint8_t *)t.data(), t.size()) != mtbl_res_success) { res.fail("MODEL", "MERGER-MULTI-seek-failed", "seek(" + short_repr(t) + ") failed"); break; }
+				mtbl_res sr;
+				{ TmpKey tk(t); sr = mtbl_iter_seek(it, tk.p, tk.n); }
+				if (sr != mtbl_res_success) { res.fail("MODEL", "MERGER-MULTI-seek-failed", "seek(" + short_repr(t) + ") failed"); break; }
 				expect = lower(t);
 				any_seek = true;
 				res.ev.b(t);
